@@ -50,11 +50,9 @@ class _RowsIterator:
             raise StopIteration()
 
         row = next(self.current_rows, None)
-        if row is not None:
-            self.rows_processed += 1
-            return row
-        else:
-            # Fetch the next table and process it
+        while row is None:
+            # Fetch the next table and process it; a table without rows is
+            # skipped, it does not end the stream
             self.current_table = next(self.tables, None)
             if self.current_table is None:
                 raise StopIteration()
@@ -62,14 +60,10 @@ class _RowsIterator:
             self.current_rows = iter(
                 process_table(self.current_table, self.row_factory, self.batch_size)
             )
-
-            # Check if the new table has rows to process
             row = next(self.current_rows, None)
-            if row is not None:
-                self.rows_processed += 1
-                return row
-            else:
-                raise StopIteration()
+
+        self.rows_processed += 1
+        return row
 
 
 def to_arrow(dataset, size=None):
